@@ -157,6 +157,164 @@ fn merge_case(seed: u64, drv: &mut Drv, rep: &mut Report) {
     }
 }
 
+// ---------------------------------------------------------------- (a') level iterator
+
+/// `FilesEntryIterator` over real table files: a sorted run of entries (several versions per user
+/// key) cut into 1-6 files at random places - also inside the run of versions of one user key -
+/// against a cursor over the concatenation and against the Lean model (`Rain.Concat.step`;
+/// theorem C04_level_iterator_is_a_cursor). Seeks are biased to the keys next to the file
+/// boundaries, alternating between a key of a later file and one of an earlier file.
+fn level_case(seed: u64, drv: &mut Drv, rep: &mut Report) {
+    let mut rng = Prng::new(seed);
+    let line = format!("c04level seed={seed}");
+    let nk = rng.range(2, 14);
+    let mut flat: Vec<Entry> = vec![];
+    let mut seq = 1u64;
+    for i in 0..nk {
+        let k = format!("k{:03}", i * 3 + rng.below(3)).into_bytes();
+        let nv = if rng.chance(1, 3) { rng.range(2, 7) } else { 1 };
+        let mut vs = vec![];
+        for _ in 0..nv {
+            let put = rng.chance(4, 5);
+            vs.push((k.clone(), seq, if put { 1u8 } else { 0u8 }, if put { gen_val(&mut rng, false) } else { vec![] }));
+            seq += rng.range(1, 3);
+        }
+        vs.reverse(); // newest first
+        flat.extend(vs);
+    }
+    let n = flat.len();
+    let nfiles = rng.range(1, 6).min(n as u64) as usize;
+    let mut cuts: Vec<usize> = (0..nfiles - 1).map(|_| rng.range(1, n as u64 - 1) as usize).collect();
+    cuts.sort();
+    cuts.dedup();
+    let mut files: Vec<Vec<Entry>> = vec![];
+    let mut start = 0;
+    for c in cuts.iter().chain(std::iter::once(&n)) {
+        if *c > start {
+            files.push(flat[start..*c].to_vec());
+            start = *c;
+        }
+    }
+    let straddle = files.windows(2).any(|w| w[0].last().map(|e| &e.0) == w[1].first().map(|e| &e.0));
+    rep.case(&line, files.len() >= 2 && n >= 3);
+    rep.count(&format!("c04.level.files.{}", files.len()));
+    if straddle {
+        rep.count("c04.level.versions-of-a-key-straddle-a-file-boundary");
+    }
+    let fs = SimFs::new();
+    {
+        use raindb::fs::FileSystem;
+        fs.create_dir_all(std::path::Path::new("/lv/data")).unwrap();
+    }
+    let opts = raindb::DbOptions {
+        db_path: "/lv".into(),
+        max_block_size: *rng.pick(&[16usize, 64, 256, 4096]),
+        filesystem_provider: fs.dyn_fs(),
+        ..raindb::DbOptions::default()
+    };
+    let numbered: Vec<(u64, Vec<Entry>)> = files.iter().enumerate().map(|(i, f)| (i as u64 + 1, f.clone())).collect();
+    let mut cur = match raindb::verif::LevelCursor::new(&opts, &numbered) {
+        Ok(c) => c,
+        Err(e) => {
+            rep.fail("oracle", "c04:level-setup", &e, &line);
+            return;
+        }
+    };
+    // keys next to the boundaries
+    let mut edge: Vec<(Vec<u8>, u64)> = vec![];
+    for w in files.windows(2) {
+        for e in [w[0].last().unwrap(), w[1].first().unwrap()] {
+            edge.push((e.0.clone(), e.1));
+            edge.push((e.0.clone(), e.1 + 1));
+            edge.push((e.0.clone(), u64::MAX >> 8));
+        }
+    }
+    let len = rng.range(10, 120) as usize;
+    let mut pos = n;
+    let mut prog: Vec<String> = vec![];
+    let mut outs: Vec<String> = vec![];
+    let mut bias_back = false;
+    for step in 0..len {
+        if step % 11 == 0 {
+            bias_back = rng.chance(1, 2);
+        }
+        let valid = pos < n;
+        let r = rng.below(20);
+        let op: u8 = if !valid {
+            *rng.pick(&[0u8, 1, 2, 2])
+        } else if r < 1 {
+            0
+        } else if r < 2 {
+            1
+        } else if r < 8 {
+            2
+        } else if (r < 14) != bias_back {
+            3
+        } else {
+            4
+        };
+        match op {
+            0 => {
+                cur.seek_to_first().unwrap();
+                pos = 0;
+                prog.push("f".into());
+            }
+            1 => {
+                cur.seek_to_last().unwrap();
+                pos = n.saturating_sub(1);
+                prog.push("l".into());
+            }
+            2 => {
+                let (k, s) = if !edge.is_empty() && rng.chance(1, 2) {
+                    rng.pick(&edge).clone()
+                } else if rng.chance(2, 3) {
+                    let e = rng.pick(&flat);
+                    (e.0.clone(), (e.1 as i64 + rng.range(0, 2) as i64 - 1).max(0) as u64)
+                } else {
+                    (format!("k{:03}", rng.below(50)).into_bytes(), rng.below(80))
+                };
+                cur.seek(&k, s).unwrap();
+                pos = flat.iter().position(|e| !ik_lt((&e.0, e.1), (&k, s))).unwrap_or(n);
+                prog.push(format!("s:{}:{}", hex(&k), s));
+            }
+            3 => {
+                cur.next();
+                pos += 1;
+                prog.push("n".into());
+            }
+            _ => {
+                cur.prev();
+                pos = if pos == 0 { n } else { pos - 1 };
+                prog.push("p".into());
+            }
+        }
+        let got = if cur.is_valid() { cur.current() } else { None };
+        let want = flat.get(pos).cloned();
+        rep.count(if want.is_some() { "c04.level.step.valid" } else { "c04.level.step.invalid" });
+        outs.push(got.as_ref().map_or("-".to_string(), ent_full));
+        if got != want {
+            rep.fail(
+                "oracle",
+                "c04:level-iterator-position-wrong",
+                &format!(
+                    "files {} program [{}]: the level iterator is at {:?}, a cursor over the concatenation of the files is at {:?}",
+                    children_tok(&files),
+                    prog.join(","),
+                    got.as_ref().map(|e| (hex(&e.0), e.1)),
+                    want.as_ref().map(|e| (hex(&e.0), e.1))
+                ),
+                &line,
+            );
+            return;
+        }
+    }
+    let ans = drv.ask(&format!("level.run {} {}", children_tok(&files), prog.join(",")));
+    if ans != "no-model" && ans != outs.join(" ") {
+        rep.drift.push(format!("level iterator program differs from the model :: {line}"));
+        rep.count("model_drift");
+    }
+}
+
 // ---------------------------------------------------------------- (b) database iterator
 
 fn db_case(seed: u64, drv: &mut Drv, rep: &mut Report) {
@@ -408,6 +566,7 @@ fn db_case(seed: u64, drv: &mut Drv, rep: &mut Report) {
 }
 
 enum Job {
+    Level(u64),
     Merge(u64),
     Db(u64),
 }
@@ -415,12 +574,13 @@ enum Job {
 fn job(j: &Job, drv: &mut Drv, rep: &mut Report) {
     match j {
         Job::Merge(s) => merge_case(*s, drv, rep),
+        Job::Level(s) => level_case(*s, drv, rep),
         Job::Db(s) => db_case(*s, drv, rep),
     }
 }
 
 pub fn rule() -> &'static str {
-    "(a) MergingIterator over 1-6 memtable-backed children with globally distinct internal keys, cursor programs of 10-200 operations with alternating forward/backward bias (next/prev only when valid, as DatabaseIterator calls it); (b) DB::new_iterator after a generated history (puts/deletes/fills/compactions on tiny memtable and file sizes, so one user key has versions in the memtable, several level-0 files and deeper levels, with tombstone runs), at the latest state or at a snapshot, programs of seek/first/last/next/prev; every step compared with a sorted-map cursor and the whole program with the Lean model. Non-trivial = at least two sources and two visible entries; distinct by seed (the case is regenerated from its seed)."
+    "(a') FilesEntryIterator over 1-6 real table files cut out of one sorted run (cuts also inside the versions of one user key), programs of 10-120 operations with seeks biased to the keys next to the file boundaries, against a cursor over the concatenation and the Lean model; (a) MergingIterator over 1-6 memtable-backed children with globally distinct internal keys, cursor programs of 10-200 operations with alternating forward/backward bias (next/prev only when valid, as DatabaseIterator calls it); (b) DB::new_iterator after a generated history (puts/deletes/fills/compactions on tiny memtable and file sizes, so one user key has versions in the memtable, several level-0 files and deeper levels, with tombstone runs), at the latest state or at a snapshot, programs of seek/first/last/next/prev; every step compared with a sorted-map cursor and the whole program with the Lean model. Non-trivial = at least two sources and two visible entries; distinct by seed (the case is regenerated from its seed)."
 }
 
 pub fn run(tier: &str, seed: u64, drv_path: &str, replay: Option<&str>, _corpus: &str) -> Report {
@@ -430,6 +590,7 @@ pub fn run(tier: &str, seed: u64, drv_path: &str, replay: Option<&str>, _corpus:
         let s: Option<u64> = line.split_whitespace().find_map(|t| t.strip_prefix("seed=")).and_then(|v| v.parse().ok());
         match (line.split_whitespace().next(), s) {
             (Some("c04merge"), Some(s)) => merge_case(s, &mut drv, &mut rep),
+            (Some("c04level"), Some(s)) => level_case(s, &mut drv, &mut rep),
             (Some("c04db"), Some(s)) => db_case(s, &mut drv, &mut rep),
             _ => rep.fail("oracle", "c04:bad-replay", "cannot parse replay case", line),
         }
@@ -444,6 +605,9 @@ pub fn run(tier: &str, seed: u64, drv_path: &str, replay: Option<&str>, _corpus:
     }
     for _ in 0..(if thorough { 4000 } else { 300 }) {
         jobs.push(Job::Db(rng.next()));
+    }
+    for _ in 0..(if thorough { 8000 } else { 800 }) {
+        jobs.push(Job::Level(rng.next()));
     }
     crate::par::run_jobs(jobs, drv_path, &mut rep, job);
     rep.rule = rule().to_string();
